@@ -30,9 +30,13 @@ def op(o, r, s=0, n=0, acc=""):
 def menus(prop, tier):
     q = tier == "quick"
     if prop == "C13":
-        reads = ["Values", "Heads", "GetEntries", "ToSnapshot", "Iterator", "ToJSONLog", "Len", "RawHeads"]
+        reads = ["Values", "Heads", "GetEntries", "ToSnapshot", "Iterator", "ToJSONLog", "Len", "RawHeads", "RawHeadsHeld"]
         m = [op("A", 1, n=1), op("A", 1, n=2), op("J", 1, 2), op("P", 1), op("SI", 1, n=2)] + [op("R", 1, acc=a) for a in reads]
-        return [dict(name="one_log", NL=2, Writer0=[1, 2], MaxSetup=3, Menu=m, NProcs=2),
+        # a kept RawHeads() result against the merge of a log whose head has this log's head in its past
+        held = dict(name="held_read", NL=2, Writer0=[1, 2], MaxSetup=3, NProcs=2 if q else 3,
+                    Menu=[op("J", 1, 2), op("R", 1, acc="RawHeadsHeld"), op("A", 1, n=1), op("R", 1, acc="ToJSONLog")],
+                    FixedSetup=[("A", 1, 1), ("J", 2, 1), ("A", 2, 1)])
+        return [dict(name="one_log", NL=2, Writer0=[1, 2], MaxSetup=3, Menu=m, NProcs=2), held,
                 ] + ([] if q else [dict(name="one_log3", NL=2, Writer0=[1, 2], MaxSetup=2,
                                         Menu=[op("A", 1, n=1), op("A", 1, n=2), op("J", 1, 2), op("P", 1), op("R", 1, acc="ToSnapshot"),
                                               op("R", 1, acc="Values")], NProcs=3)])
